@@ -77,8 +77,15 @@ Probes == {ProbeCase(N, a, L, 1, 0, 2 ^ L) : N \in 1..MaxN, a \in 1..MaxN, L \in
           \cup {ProbeCase(N, a, L, 1, 0, 1) : N \in 1..MaxN, a \in 1..MaxN, L \in {20, 30}}
           \cup {ProbeCase(N, a, L, 1, 1, 0) : N \in 1..MaxN, a \in 1..MaxN, L \in {20, 30}}
 
+\* huge magnitudes: interpolation is homogeneous, so the numerators computed on small integers v0, v1 are scaled by 2^E in
+\* the harness (E chosen so that |v1 - v0| * 2^E exceeds the largest finite value of the type while v0, v1 * 2^E are finite):
+\* "arbitrary finite stored values" must not produce infinities or NaNs, and lattice points stay exact
+ScaledCase(N, a, f, v0, v1) == [kind |-> "scaled", n |-> N, axis |-> a, f |-> f, v0 |-> v0, v1 |-> v1, num |-> f * v1 + (D - f) * v0, D |-> D]
+Scaled == {ScaledCase(N, a, f, v0, v1) : N \in 1..MaxN, a \in 1..MaxN, f \in 0..(D - 1), v0 \in {1, -1}, v1 \in {1, -1}}
+
 EmitCases == TLCGet("stats").generated >= 0 /\
   ndJsonSerialize(IOEnv.VF_OUT, SetToSeq(UNION {{GridCase(N, e) : e \in ExtVecs(N)} : N \in 1..MaxN})) /\
   ndJsonSerialize(IOEnv.VF_OUT2, SetToSeq(UNION {{ClampCase(N, e) : e \in ExtVecs(N)} : N \in 1..2})
-                                 \o SetToSeq({pc \in Probes : pc.axis <= pc.n}))
+                                 \o SetToSeq({pc \in Probes : pc.axis <= pc.n})
+                                 \o SetToSeq({sc \in Scaled : sc.axis <= sc.n}))
 =============================================================================
